@@ -450,11 +450,11 @@ func sameSortPair(a, b *Term) (*Term, *Term) {
 	if a.sort == b.sort {
 		return a, b
 	}
-	if a.sort.K == SInt {
-		return a, toInt(b, true)
+	if a.sort.K == SInt && b.sort.K == SBV {
+		return a, bvAsInt(b)
 	}
-	if b.sort.K == SInt {
-		return toInt(a, true), b
+	if b.sort.K == SInt && a.sort.K == SBV {
+		return bvAsInt(a), b
 	}
 	panic(fmt.Sprintf("sameSortPair %v %v", a.sort, b.sort))
 }
@@ -492,7 +492,12 @@ func (in *Interp) strLess(a, b *StringV) *Term {
 	}
 	res := BoolConst(an < bn)
 	for i := m - 1; i >= 0; i-- {
-		res = Ite(BVUlt(a.b[i], b.b[i]), True, Ite(BVUgt(a.b[i], b.b[i]), False, res))
+		x, y := sameSortPair(a.b[i], b.b[i])
+		if x.sort.K == SInt {
+			res = Ite(ILt(x, y), True, Ite(IGt(x, y), False, res))
+		} else {
+			res = Ite(BVUlt(x, y), True, Ite(BVUgt(x, y), False, res))
+		}
 	}
 	return res
 }
